@@ -8,7 +8,8 @@ import KonstVerif.Spec.Range
     range.<via>[.rev|.irev] <ty> <a> <b>     whole iteration through a macro; <via> ∈ fe, ev, cc
     rangeinc.<via>[.rev|.irev] <ty> <a> <b>    (.rev = the macro's `rev()` i.e. `next_back` on the forward
                                                iterator, .irev = `.rev()` iterator driven with `next`)
-    rangefrom[.fe|.ev] <ty> <a> <k>          the first k items of `a..`
+    rangefrom[.fe|.ev] <ty> <a> <k>          the first k items of `a..` (k calls of `next` / `for_each!` + `break` /
+                                               `eval!` + `take(k)`: k pulls each)
     rftop.<via> <ty> <a> <k>                 `a..` observed step by step up to and past MAX: `[v:<x>;…;panic|end]`;
                                                <via> ∈ next, fe, take, evtake, zip, zipin, nth, evnext;
                                                cc = `collect_const!(.., take(k))` const item: `panic` or all the items
@@ -110,10 +111,11 @@ def handleTy {α} [ToString α] (T : Ty α) (op : String) (args : List String) :
     let k ← parseNat k
     some (showVals (runRangeFrom T.S a k), showVals (some (T.fromList a k)))
   | ["rangefrom", "ev"], [a, k] =>
-    -- `take(k)` pulls one more item from its source before it stops
+    -- `eval!(&(a..), take(k), for_each(..))`: the countdown of `take` is tested before the source is pulled
+    -- (`takeLoop_eq_pulls`), so the source is asked for exactly `k` items
     let a ← T.parse a
     let k ← parseNat k
-    some (showVals ((runRangeFrom T.S a (k + 1)).map (·.take k)), showVals (some (T.fromList a k)))
+    some (showVals (runRangeFrom T.S a k), showVals (some (T.fromList a k)))
   | kind :: rest, [a, b, hist] =>
     let a ← T.parse a
     let b ← T.parse b
